@@ -2,6 +2,12 @@ HOOK_COMMITS = ["0cc1f16"]
 NOTES = "All checks: bin/check <ID> --tier quick|thorough [--replay file]; exit 0/1/2 (2 = TOOL-ERROR). See DESIGN.md."
 NOT_APPLICABLE = {}
 CHECKS = {
+    "C16": {
+        "text": "TLC enumerates every small SSA and register circuit value (ill-formed ones included) and checks, at the design level, that the transcribed validation (Validate.tla) implies safe evaluation on the register/SSA step machines of CircuitSem.tla (invariant ValidImpliesSafe); every enumerated value is then replayed into the real validate()/eval() with the oracle's EvalSafe verdict; validate() must also accept every compiler and converter product of the corpus.",
+        "design_ref": "DESIGN.md §5 C16",
+        "note": "Bounded-exhaustive value space (quick: <=2 gates/instructions, references 0..2/0..4, <=2 parties of size <=1, max_reg_count 0..3; thorough: larger). Trusted: JSON<->circuit conversion in the harness; TLC.",
+        "technique": "TLC bounded-exhaustive enumeration of circuit values with oracle verdict, replayed into the implementation; design-level invariant ValidImpliesSafe",
+    },
     "C10": {
         "text": "TLC model-checks the register-allocator design model (RegAlloc.tla, one action per SSA wire, mirrors find_out_reg) against the circuit semantics on every SSA circuit within the bound, emits every such circuit, and validates the real converter's output for each of them (and for compiled corpus circuits) against Trace_Reg.tla, which re-executes the logged instructions on the register step machine with an explicit defined-set.",
         "design_ref": "DESIGN.md §5 C10",
